@@ -106,3 +106,27 @@ fn font_widths_group_shapes() {
     group(2, 3, 3, 2);      // overlapping
     group(1, 1, 5, 3);      // longer group after a gap
 }
+
+/// one `first last w` group the way Font::widths applies it -- set(c, w) for every c in first..=last -- on a concrete table shape
+fn range_group(first: usize, len: usize, c1: usize, c2: usize) {
+    let vals = [anyw(), anyw(), anyw()];
+    let mut w = Widths { values: vals[..len].to_vec(), default: anyw(), first_char: first };
+    let gw = anyw();
+    let q: usize = kani::any();
+    kani::assume(q <= 14);
+    let before = w.get(q);
+    let mut c = c1;
+    while c <= c2 { w.set(c, gw); c += 1; }
+    let after = w.get(q);
+    if q >= c1 && q <= c2 { assert!(after == gw); } else { assert!(after == before); }
+    std::mem::forget(w);
+}
+#[kani::proof]
+fn font_widths_range_shapes() {
+    range_group(2, 2, 6, 8);      // gap between table and range
+    range_group(0, 0, 3, 5);      // empty table
+    range_group(5, 2, 0, 2);      // range before the table, with a gap
+    range_group(2, 3, 3, 6);      // overlapping and extending
+    range_group(3, 1, 3, 3);      // single code, overwrite
+    range_group(4, 2, 7, 6);      // empty range (last < first): nothing changes
+}
